@@ -8,6 +8,8 @@ import itertools
 
 MODES = {
     'normal': "x = 1\nprint(x)\n",
+    'raise_BdbQuit': "import bdb\nprint('dbg')\nraise bdb.BdbQuit\n",
+    'through_library': "import json\ndef enc(o):\n    return 1 / 0\njson.dumps(object(), default=enc)\n",
     'timeout': "print('started')\nwhile True:\n    pass\n",
     'ValueError': "raise ValueError('bad')\n",
     'ZeroDivision': "print('before')\n1/0\n",
@@ -134,7 +136,7 @@ def one(entry, mode, tracer, prop):
                 if fb.fields.get('exception_name') != want:
                     fails.append(('describes_class', '%s/%s/%s: feedback names %r, exception is %s' % (
                         entry, mode, tracer, fb.fields.get('exception_name'), want)))
-                lines_ = {'ValueError': 1, 'ZeroDivision': 2, 'NameError': 1, 'KeyError': 2, 'assertion': 1,
+                lines_ = {'through_library': 3, 'raise_BdbQuit': 3, 'ValueError': 1, 'ZeroDivision': 2, 'NameError': 1, 'KeyError': 2, 'assertion': 1,
                           'finally_after_raise': 2, 'reraise_after_cleanup': 2, 'raise_in_function': 2}
                 if entry == 'run' and mode in lines_:
                     line = lines_[mode]
@@ -166,7 +168,8 @@ def bounded(arg):
     for entry, mode, tracer in itertools.product(('run', 'call', 'evaluate', 'run_with_import'), MODES, tracers):
         if quick and tracer != 'none' and entry in ('call', 'evaluate'):
             continue
-        if tracer == 'calls' and (mode in ('own_settrace', 'RecursionError', 'timeout') or (quick and entry != 'run_with_import')):
+        if tracer == 'calls' and (mode in ('own_settrace', 'RecursionError', 'timeout') or
+                                  (quick and entry != 'run_with_import' and mode != 'raise_BdbQuit')):
             continue            # bdb-based tracing: student settrace / deep recursion / async exceptions are out of its contract
         evaluations += 1
         distinct.add((entry, mode, tracer))
@@ -183,7 +186,33 @@ def bounded(arg):
             if mode in ('broken_str', 'broken_repr'):
                 canon += ' (' + mode + ')'
             failures.append({'id': what, 'canon': canon, 'detail': detail, 'entry': entry, 'mode': mode})
-    # sequences of executions: the stacks stay empty
+    # a sequence: after a timed-out threaded execution, a threaded execution that exits by itself is the student's own
+    # exit (contained, reported, everything restored) - not a second abandoned worker
+    try:
+        sb, report = fresh('none')
+        sb.threaded = True
+        sb.allowed_time = 0.3
+        sb.run(MODES['timeout'], filename='answer.py')
+        for rounds in range(3):
+            before = snapshot(sb)
+            n_rt = len([f for f in report.feedback + report.ignored_feedback if f.category == 'runtime'])
+            sb.run("import sys\nprint('leaving')\nsys.exit(2)\n", filename='answer.py')
+            after = snapshot(sb)
+            evaluations += 1
+            distinct.add(('sequence', 'timeout_then_exit', rounds))
+            rts = [f for f in report.feedback + report.ignored_feedback if f.category == 'runtime']
+            if prop in ('C04', 'all') and (not isinstance(sb.exception, SystemExit) or len(rts) - n_rt != 1):
+                failures.append({'id': 'one_runtime_feedback', 'canon': 'one_runtime_feedback (exit after an earlier timeout)',
+                                 'detail': 'threaded sys.exit(2) after a timed-out execution: exception %r, %d runtime feedbacks'
+                                 % (sb.exception, len(rts) - n_rt), 'entry': 'run', 'mode': 'timeout_then_exit'})
+            if prop in ('C05', 'all'):
+                for d in diff(before, after):
+                    failures.append({'id': 'restore', 'canon': 'restore (exit after an earlier timeout)',
+                                     'detail': 'threaded sys.exit(2) after a timed-out execution: %s' % d,
+                                     'entry': 'run', 'mode': 'timeout_then_exit'})
+    except BaseException as e:
+        failures.append({'id': 'harness', 'canon': 'harness', 'detail': 'timeout_then_exit sequence: %r' % e, 'entry': 'run',
+                         'mode': 'timeout_then_exit'})
     return {'name': 'B-sandbox', 'bound': 'product of %d termination modes x 4 entry points (run, call, evaluate, run with a nested '
             'import of a second student file) x tracer styles none/native/calls (coverage needs the absent `coverage` package); timeout = threaded busy loop, 0.3 s' % len(MODES), 'evaluations': evaluations, 'distinct_nontrivial': len(distinct), 'exhaustive': True,
         'rule': 'distinct = (entry point, termination mode, tracer)', 'samples': samples, 'failures': failures}
